@@ -229,6 +229,48 @@ def real_potential(rng):
     return "%s#%d" % (kind, rng.randint(0, 10 ** 6)), f, dref
 
 
+def potable_real_models(rng, n, target, nr_of):
+    """n potable pair models whose [Pair] entries are random potential expressions (built-in forms, sum / product / pow / trans modifiers nested to
+    depth 2, multi-range definitions, exp-spline and buck4) -> list of (config text, cutoff, nr, [(label A, label B, reference callable, boundaries, text)]).
+    The reference callable is the SAME expression composed through the Python API with the documented meaning of each modifier."""
+    from props.C07 import gen_expr
+    out = []
+    for _ in range(n):
+        nr = nr_of(rng)
+        cut = round(rng.uniform(3.0, 9.0), rng.choice([1, 2]))
+        ents = []
+        for j in range(rng.randint(1, 3)):
+            for _try in range(30):
+                f, txt, desc, bounds = gen_expr(rng, rng.choice([1, 2, 2]))
+                if txt is not None:
+                    break
+            else:
+                continue
+            ents.append(("A%d" % j, "B", f, bounds, txt))
+        if not ents:
+            continue
+        cfg = "[Tabulation]\ntarget : %s\ncutoff : %r\nnr : %d\n\n[Pair]\n" % (target, cut, nr) + "".join("%s-%s : %s\n" % (a, b, t) for a, b, f, bd, t in ents)
+        out.append((cfg, cut, nr, ents))
+    return out
+
+
+def ref_values(f, r, bounds):
+    """(energy, -dE/dr) of the reference callable at r with the numerical reference derivative; None where not usable
+    (within a stencil of a range / spline boundary, not finite, or the reference derivative has not converged)"""
+    if any(abs(r - b) < 3e-3 * max(abs(r), 0.05) for b in bounds):
+        return None
+    try:
+        ev = float(f(r))
+    except (OverflowError, ZeroDivisionError, ValueError):
+        return None
+    if not math.isfinite(ev) or abs(ev) > 1e30:
+        return None
+    slope = richardson(f, r, room=min([abs(r - b) for b in bounds], default=None))
+    if slope is None or not math.isfinite(slope):
+        return None
+    return ev, slope
+
+
 # ---------------------------------------------------------------------------------------------------
 import re  # noqa: E402
 _DL_DATA = re.compile(r"^( [ -]\d\.\d{7}e[+-]\d{2,3})+$")
